@@ -394,6 +394,10 @@ func (c *fsCache) Set(key string, entry []byte) error {
 	ctx, cancel := context.WithTimeout(context.Background(), c.timeout)
 	defer cancel()
 
+	// The write may outlive this call (it is abandoned, not stopped, when the
+	// timeout fires): it works on its own copy, the caller's buffer is the
+	// caller's again as soon as Set returns.
+	entry = slices.Clone(entry)
 	errc := make(chan error, 1)
 	go func() {
 		defer close(errc)
